@@ -162,6 +162,21 @@ def run(ctx):
             v = strip_refs(e[2][1])
             zero_edge = any(c['kind'] == 'Eq' and c['truth'] is True and is_const(c['b'], 0) and q.is_call(strip_refs(c['a']), 'sum') for c in f.conds(bi))
             ok = v[0] == 'bin' and v[1] == 'Div' and is_const(v[2], 1) and zero_edge and norm(e[2][0]) == ('param', 1, f.local_name(1))
+        # on the other edge every entry is *divided* by the sum (x * (1/sum) is not the same function: 1/sum overflows
+        # for a subnormal sum, and rounds differently)
+        divs_ = []
+        recips_ = []
+        for bi, st, pl, rhs in q.stores(f):
+            rr = strip_refs(rhs)
+            if rr[0] == 'bin' and rr[1] == 'Div' and norm(rr[2]) == norm(pl) and q.is_call(strip_refs(rr[3]), 'sum'):
+                divs_.append(bi)
+            if rr[0] == 'bin' and rr[1] == 'Mul' and norm(rr[2]) == norm(pl) and q.find_sub(rr[3], lambda x: q.is_call(x, 'recip') or (x[0] == 'bin' and x[1] == 'Div' and is_const(x[2], 1))) is not None:
+                recips_.append(bi)
+        if divs_ or recips_:
+            ctx.verdict(bool(divs_) and not recips_, rule, rule + ':divides-by-sum', 'an infoset with accumulated mass is normalised by dividing every entry by the sum of the slice', f.where((divs_ or recips_)[0]),
+                        '%d entry / sum store(s); %d entry * reciprocal store(s)' % (len(divs_), len(recips_)), breaks='a tiny (subnormal) accumulated mass turns into inf / NaN probabilities through 1/sum')
+        else:
+            ctx.anchor_lost(rule, 'avg_strat: normalising store')
         ctx.verdict(ok, rule, rule + ':uniform-on-zero', 'an infoset that accumulated nothing gets the uniform distribution 1/len (on the `norm == 0` edge)', f.where(0), 'found: %s' % ok, breaks='never-visited infosets are returned as all-zero (or NaN) vectors')
     n = 0
     for g_ in lib.non_test_fns():
